@@ -111,4 +111,17 @@ Conf_Attrs ==
     IN [ev.obs.out EXCEPT !.aspath = Norm(@)] = [m EXCEPT !.aspath = Norm(@)]
 Conf_Inbound ==
   IsRecv => (SeqToSet(ev.obs.rib) = IF MechUsed(ev.route, ctx.peer, ctx.local) THEN {Tag(ev.route)} ELSE {})
+
+(* Scan mode (ExportScan.cfg): one pass over a batch that never stops at a failing step but
+   records, in TLC register 3, the tid of every trace with a step on which a C09_* invariant is
+   false (register 4: a Conf_* invariant).  The driver then validates the clean traces in one run
+   and the listed ones one by one against the named invariants (a systematic defect would
+   otherwise cost one TLC run per failing trace). *)
+ASSUME TLCSet(3, {})
+ASSUME TLCSet(4, {})
+ScanStrict == C09_Attrs /\ C09_MayAdvertise /\ C09_StoredUnchanged /\ C09_Inbound /\ C09_InboundNoStale
+ScanConf   == Conf_Advertise /\ Conf_Attrs /\ Conf_Inbound
+Scan == /\ (IF ScanStrict THEN TRUE ELSE TLCSet(3, TLCGet(3) \cup {ctx.tid}))
+        /\ (IF ScanConf THEN TRUE ELSE TLCSet(4, TLCGet(4) \cup {ctx.tid}))
+ScanAccepted == Accepted /\ PrintT("VPOUT " \o ToJson([failing |-> TLCGet(3), confmis |-> TLCGet(4)]))
 =============================================================================
